@@ -11,8 +11,8 @@ package client
 //@   property C19
 //@   requires c != nil && c.findURL != nil && c.c != nil && ctx != nil
 //@   ghost status := 0
-//@   at call Do#1: after ghost status := ite(result1 == nil, result0.StatusCode, 0)
-//@   at call UnmarshalFindResponse#1: assert status == 200
+//@   at call Do: after ghost status := ite(result1 == nil, result0.StatusCode, 0)
+//@   at call UnmarshalFindResponse: assert status == 200
 //@   ensures-local status == 404 ==> result1 == nil && result0 != nil && len(result0.MultihashResults) == 0 && count("call:UnmarshalFindResponse") == 0
 //@   ensures-local status != 0 && status != 200 && status != 404 ==> result1 != nil && result0 == nil
 //@   ensures-local status == 200 ==> count("call:ReadAll") == 1
@@ -41,11 +41,11 @@ package client
 //@   readonly
 //@   ghost h := zero("[]byte")
 //@   ghost enc := zero("[]byte")
-//@   at call SHA256#1: assert arg0 == vk && len(arg1) == 0
-//@   at call SHA256#1: after ghost h := result
-//@   at call FindMetadata#1: assert arg2 == h
-//@   at call FindMetadata#1: after ghost enc := result0
-//@   at call DecryptMetadata#1: assert arg0 == enc && arg1 == vk && len(enc) != 0
+//@   at call SHA256: assert arg0 == vk && len(arg1) == 0
+//@   at call SHA256: after ghost h := result
+//@   at call FindMetadata: assert arg2 == h
+//@   at call FindMetadata: after ghost enc := result0
+//@   at call DecryptMetadata: assert arg0 == enc && arg1 == vk && len(enc) != 0
 //@   ensures-local count("call:DHStoreAPI.FindMetadata") == 1
 //@   ensures-local count("call:DecryptMetadata") <= 1
 
@@ -65,17 +65,17 @@ package client
 //@   ghost pid0 := ""
 //@   ghost ctx0 := zero("[]byte")
 //@   ghost md0 := zero("[]byte")
-//@   at call SecondMultihash#1: assert arg0 == mh
-//@   at call SecondMultihash#1: after ghost second := result
-//@   at call FindMultihash#1: assert arg2 == second
-//@   at call DecryptValueKey#1: assert arg1 == mh
-//@   at call DecryptValueKey#1: after ghost vk0 := result0
-//@   at call SplitValueKey#1: assert arg0 == vk0
-//@   at call SplitValueKey#1: after ghost pid0 := str(result0)
-//@   at call SplitValueKey#1: after ghost ctx0 := result1
-//@   at call fetchMetadata#1: assert arg2 == vk0
-//@   at call fetchMetadata#1: after ghost md0 := result0
-//@   at call GetResults#1: assert arg0 == c.pcache && str(arg2) == pid0 && arg3 == ctx0 && arg4 == md0 && len(md0) != 0
+//@   at call SecondMultihash: assert arg0 == mh
+//@   at call SecondMultihash: after ghost second := result
+//@   at call FindMultihash: assert arg2 == second
+//@   at call DecryptValueKey: assert arg1 == mh
+//@   at call DecryptValueKey: after ghost vk0 := result0
+//@   at call SplitValueKey: assert arg0 == vk0
+//@   at call SplitValueKey: after ghost pid0 := str(result0)
+//@   at call SplitValueKey: after ghost ctx0 := result1
+//@   at call fetchMetadata: assert arg2 == vk0
+//@   at call fetchMetadata: after ghost md0 := result0
+//@   at call GetResults: assert arg0 == c.pcache && str(arg2) == pid0 && arg3 == ctx0 && arg4 == md0 && len(md0) != 0
 //@   ensures closed(resChan)
 // without a provider cache one value key gives at most one result, and only when metadata was found:
 // it carries that metadata and the context ID of that value key (send event arguments: channel, then
@@ -101,7 +101,7 @@ package client
 //@   requires c != nil && dhapiOK(c.dhstoreAPI) && ctx != nil && (c.pcache != nil ==> pcOK(c.pcache) && !held(c.pcache.writeLock))
 //@   requires resChan != nil && !closed(resChan) && errChan != nil && !closed(errChan)
 //@   mayblock
-//@   at call FindAsync#1: assert arg1 == ctx && arg2 == mh && arg3 == resChan
+//@   at call FindAsync: assert arg1 == ctx && arg2 == mh && arg3 == resChan
 //@   ensures-local count("call:FindAsync") == 1 && count("send:errChan") == 1 && before("call:FindAsync", "send:errChan")
 
 // The HTTP implementation of DHStoreAPI: the key goes into the URL path in base58; 404 is "no data, no
@@ -111,14 +111,14 @@ package client
 //@   requires d != nil && d.c != nil && d.dhFindURL != nil && ctx != nil
 //@   ghost status := 0
 //@   ghost key := 0
-//@   at call B58String#1: assert arg0 == dhmh
-//@   at call B58String#1: after ghost key := str(result)
-//@   at call JoinPath#1: assert arg0 == d.dhFindURL && len(arg1) == 1 && str(arg1[0]) == key
+//@   at call B58String: assert arg0 == dhmh
+//@   at call B58String: after ghost key := str(result)
+//@   at call JoinPath: assert arg0 == d.dhFindURL && len(arg1) == 1 && str(arg1[0]) == key
 //@   ghost readOK := false
-//@   at call Do#1: after ghost status := ite(result1 == nil, result0.StatusCode, 0)
-//@   at call ReadAll#1: after ghost readOK := result1 == nil
-//@   at call Unmarshal#1: assert status == 200 && readOK
-//@   at call FromResponse#1: assert arg0 == status && status != 200 && status != 404
+//@   at call Do: after ghost status := ite(result1 == nil, result0.StatusCode, 0)
+//@   at call ReadAll: after ghost readOK := result1 == nil
+//@   at call Unmarshal: assert status == 200 && readOK
+//@   at call FromResponse: assert arg0 == status && status != 200 && status != 404
 //@   ensures-local status == 404 && readOK ==> result1 == nil && len(result0) == 0
 //@   ensures-local status != 0 && status != 200 && status != 404 ==> result1 != nil
 //@   ensures-local count("call:Do") <= 1
@@ -128,14 +128,14 @@ package client
 //@   requires d != nil && d.c != nil && d.dhMetadataURL != nil && ctx != nil
 //@   ghost status := 0
 //@   ghost key := 0
-//@   at call Encode#1: assert arg0 == hvk
-//@   at call Encode#1: after ghost key := str(result)
-//@   at call JoinPath#1: assert arg0 == d.dhMetadataURL && len(arg1) == 1 && str(arg1[0]) == key
+//@   at call Encode: assert arg0 == hvk
+//@   at call Encode: after ghost key := str(result)
+//@   at call JoinPath: assert arg0 == d.dhMetadataURL && len(arg1) == 1 && str(arg1[0]) == key
 //@   ghost readOK := false
-//@   at call Do#1: after ghost status := ite(result1 == nil, result0.StatusCode, 0)
-//@   at call ReadAll#1: after ghost readOK := result1 == nil
-//@   at call Unmarshal#1: assert status == 200 && readOK
-//@   at call FromResponse#1: assert arg0 == status && status != 200 && status != 404
+//@   at call Do: after ghost status := ite(result1 == nil, result0.StatusCode, 0)
+//@   at call ReadAll: after ghost readOK := result1 == nil
+//@   at call Unmarshal: assert status == 200 && readOK
+//@   at call FromResponse: assert arg0 == status && status != 200 && status != 404
 //@   ensures-local status == 404 && readOK ==> result1 == nil && len(result0) == 0
 //@   ensures-local status != 0 && status != 200 && status != 404 ==> result1 != nil
 //@   ensures-local count("call:Do") <= 1
